@@ -7,7 +7,7 @@
    iteration order (range, first, next_back) is the list order.
    The field `free_size` (sum of the free sizes, read only by dead code) is not
    modelled.  `None` results of functions that index the table stand for the
-   Rust panic "index out of bounds". *)
+   Rust panic "index out of bounds" (new_record: also Vec::push beyond the capacity limit). *)
 From Agdb Require Import Bytes.
 Open Scope N_scope.
 
@@ -85,6 +85,7 @@ Definition new_record (rs : records) (pos size : N) : option (records * srec) :=
       let r := {| r_index := h; r_pos := pos; r_size := size |} in
       Some (set_recs rs (upd (set_head (recs rs) (r_index rh)) (N.to_nat h) r), r)
     end
+  else if two64 <=? lenN (recs rs) + 1 then None    (* Vec::push: capacity overflow (placed at 2^64 entries) *)
   else
     let r := {| r_index := lenN (recs rs); r_pos := pos; r_size := size |} in
     Some (set_recs rs (recs rs ++ [r]), r).
